@@ -70,7 +70,7 @@ where
                             break;
                         }
                     }
-                    let mut l = Local::new();
+                    let mut l = Local { sub: sub.to_string(), ..Local::new() };
                     let lo = c * chunk;
                     let hi = ((c + 1) * chunk).min(n);
                     for i in lo..hi {
@@ -215,7 +215,7 @@ pub fn bfs<T: SeqSpec>(rep: &mut Report, sub: &str, spec: T) {
     use stateright::{Checker, Model};
     let t0 = Instant::now();
     let n_inits = spec.inits().len();
-    let glue = Glue { spec, shards: (0..SHARDS).map(|_| Mutex::new(Local { keep_smallest: true, ..Local::new() })).collect(), next_shard: AtomicUsize::new(0) };
+    let glue = Glue { spec, shards: (0..SHARDS).map(|_| Mutex::new(Local { keep_smallest: true, sub: sub.to_string(), ..Local::new() })).collect(), next_shard: AtomicUsize::new(0) };
     let mut builder = glue.checker().threads(threads());
     if let Some(d) = rep.deadline {
         let left = d.saturating_duration_since(Instant::now());
